@@ -948,7 +948,8 @@ func (eval Evaluator) MulThenAdd(op0 *rlwe.Ciphertext, op1 rlwe.Operand, opOut *
 			return fmt.Errorf("cannot MulThenAdd: %w", err)
 		}
 
-		opOut.Resize(op0.Degree(), opOut.Level())
+		// The receiver is evaluated at the minimum level and keeps its own higher-degree terms
+		opOut.Resize(utils.Max(op0.Degree(), opOut.Degree()), level)
 
 		// Gets the ring at the minimum level
 		ringQ := eval.GetParameters().RingQ().AtLevel(level)
@@ -997,7 +998,8 @@ func (eval Evaluator) MulThenAdd(op0 *rlwe.Ciphertext, op1 rlwe.Operand, opOut *
 			return fmt.Errorf("cannot MulThenAdd: %w", err)
 		}
 
-		opOut.Resize(op0.Degree(), opOut.Level())
+		// The receiver is evaluated at the minimum level and keeps its own higher-degree terms
+		opOut.Resize(utils.Max(op0.Degree(), opOut.Degree()), level)
 
 		// Gets the ring at the target level
 		ringQ := eval.GetParameters().RingQ().AtLevel(level)
